@@ -92,7 +92,19 @@ def case_arith2(R: Runner, inp: dict[str, Any]) -> None:
             return  # zero divisors are the binary mode's subject
         cls = "wide-range-operands"
         for f in ("plus", "minus", "times", "divided_by", "modulo", "at_least", "at_most"):
-            R.both(f, a, b, cls=cls)
+            r = R.both(f, a, b, cls=cls)
+            if f == "modulo" and r.kind != "foreign" and a > 0 and b > 0:
+                # "on all finite numbers": the remainder exists and is smaller than the divisor,
+                # however many digits the quotient has
+                ea, eb = exact(a), exact(b)
+                want = ea - eb * math.floor(ea / eb)
+                if R.law("modulo", "total-on-finite-operands", r.ok, "quotient-beyond-decimal-precision",
+                         {"call": ["modulo", a, b], "want": str(want), "got": r.brief()}):
+                    v = r.value
+                    ok = isinstance(v, (int, float)) and not isinstance(v, bool) and \
+                        (Fraction(v) == want or float_close(float(v), want))
+                    R.law("modulo", "decimal-remainder", ok, "wide-range-operands",
+                          None if ok else {"call": ["modulo", a, b], "want": str(want), "got": v})
         return
     if not (numeric_string_in_domain(a) and numeric_string_in_domain(b)):
         return
